@@ -174,6 +174,7 @@ func TestDeadNodesAndPrune(t *testing.T) {
 		add(prunes > 0, "has-prune")
 		add(deleted > 0, "prune-deletes>0")
 		add(s.Recreate, "identical-recreate")
+		add(s.Wide, "round-numbers-beyond-32-bits")
 		add(ntPrune, "prune-with>=2-retained-roots")
 		for _, rd := range s.Rounds {
 			if rd.PruneBelow > 0 {
